@@ -33,7 +33,7 @@ PROBES = ['unknown-object', 'unknown-method', 'invalid-args', 'interface-omitted
           'same-member-two-interfaces', 'dbusCaller-requested', 'inherited-interface-called', 'interface-bound-across-classes',
           'unencodable-return', 'invalid-error-name', 'peer-ping', 'several-calls-in-flight',
           'nested-exception-class', 'deferred-already-fired', 'export-over-exported-path', 'base-class-instance-first', 'call-after-unexport',
-          'two-callers-same-serial', 'error-name-per-instance', 'implementation-fails-with-a-remote-error']
+          'two-callers-same-serial', 'error-name-per-instance', 'implementation-fails-with-a-remote-error', 'peer-interface-other-member']
 COMPONENTS = {
     'real': ['txdbus.objects.DBusObjectHandler.handleMethodCallMessage / DBusObject.executeMethod',
              'txdbus.client.DBusClientConnection', 'txdbus.message / marshal', 'twisted Deferred'],
@@ -272,7 +272,16 @@ def scenario(ctx):
             flags |= 2
         little = not ds.flag(0.2)
         c = {'path': p, 'sender': sender, 'flags': flags, 'kind': kind}
-        if kind == 6 or not cands:
+        if (kind == 6 or not cands) and ds.flag(0.3):
+            # the Peer interface has Ping (answered for any path); anything else on it is looked
+            # up like any other call
+            if ds.flag(0.5):
+                c['path'] = '/nope'
+            c.update(kindname='peer-other-member', iface='org.freedesktop.DBus.Peer', member='Frobnicate',
+                     sig='', body=[], expect='unknown-method' if c['path'] in objs and c['path'] not in gone
+                     else 'unknown-object')
+            sim.probe('peer-interface-other-member')
+        elif kind == 6 or not cands:
             c.update(kindname='ping', iface='org.freedesktop.DBus.Peer', member='Ping', sig='',
                      body=[], expect='ping')
             sim.probe('peer-ping')
